@@ -23,7 +23,7 @@ func TestProp(t *testing.T)   { vkit.RunAll(t) }
 func TestReplay(t *testing.T) { vkit.RunReplay(t) }
 
 func init() {
-	vkit.Register("regions", vkit.N{Quick: 1600, Thorough: 100000}, genCase, runCase)
+	vkit.Register("regions", vkit.N{Quick: 1600, Thorough: 40000}, genCase, runCase)
 }
 
 // ---------------------------------------------------------------- case data
